@@ -106,12 +106,23 @@ func vAssume(c bool) {
 }
 
 func vAssert(c bool, label string) {
+	vMu.Lock()
+	vAssertLog = append(vAssertLog, label)
 	if !c {
-		vMu.Lock()
 		vFailures = append(vFailures, label)
-		vMu.Unlock()
 	}
+	vMu.Unlock()
 }
+
+// vObserve records a value for the executor-vs-compiler validation: the
+// executor predicts it from the solver's model, the native run reports it.
+func vObserve(label, val string) {
+	vMu.Lock()
+	vObsLog = append(vObsLog, fmt.Sprintf("%s=%x", label, val))
+	vMu.Unlock()
+}
+
+var vAssertLog, vObsLog []string
 
 func vReach(label string) {
 	vMu.Lock()
